@@ -330,7 +330,7 @@ where
         let mut parent_index = index >> 1;
         let mut parent_index_bak = parent_index;
         // maximum index at this depth
-        let parent_max_index_0 = (1 << parent_depth) / 2;
+        let parent_max_index_0 = 1 << parent_depth;
         // Based on given length (number of elements we will update)
         // we could restrict the parent_max_index
         let current_index_max = if (index + length) % 2 == 0 {
@@ -365,7 +365,7 @@ where
                 parent_depth -= 1;
                 parent_index = parent_index_bak >> 1;
                 parent_index_bak = parent_index;
-                parent_max_index >>= 1;
+                parent_max_index = (parent_max_index + 1) >> 1;
                 current_depth -= 1;
                 current_index = current_index_bak >> 1;
                 current_index_bak = current_index;
